@@ -126,6 +126,9 @@ func isObs(kind string) bool { return strings.HasPrefix(kind, "o") }
 
 // attribute value for abstract value n (>0) of key k under representation rep
 func concreteKV(k string, n int, rep int) attribute.KeyValue {
+	if isTyped(n) { // typed value: its type is part of the model value (typed.go)
+		return concreteTyped(k, n)
+	}
 	r := rep % 5
 	if r == 4 { // mixture: representation chosen per key
 		r = int(k[0]) % 4
@@ -143,6 +146,9 @@ func concreteKV(k string, n int, rep int) attribute.KeyValue {
 }
 
 func abstractVal(v attribute.Value) int {
+	if n, ok := abstractTyped(v); ok {
+		return n
+	}
 	switch v.Type() {
 	case attribute.INT64:
 		return int(v.AsInt64())
@@ -889,6 +895,7 @@ func replay(args []string) {
 		vh.Must(json.Unmarshal(e.To, &to))
 		colls, peek, order, p := runOps(ops, keys, *rep, vh.Seed()+int64(i))
 		res.Executed++
+		countTyped(res, ops)
 		sig := cfgSig(ops[0].Cfg)
 		if p != nil {
 			sig["why"] = "panic"
@@ -1522,6 +1529,7 @@ func random(args []string) {
 			seenSet[t] = true
 			pool = append(pool, map[string]int{"a": t[0], "b": t[1], "c": t[2]})
 		}
+		retypePool(r, pool, res)
 		var panicked any
 		func() {
 			defer func() {
